@@ -118,7 +118,8 @@ class Ctx:
         os.makedirs(EVIDENCE, exist_ok=True)
         with open(os.path.join(EVIDENCE, "%s.json" % self.prop), "w") as f:
             json.dump(ev, f, indent=1, default=str)
-        # at most a handful of VIOLATION lines
+        # at most a handful of VIOLATION lines; those that carry a concrete failing input first
+        real.sort(key=lambda v: 0 if v[2] else 1)
         for (path, what, found) in real[:10]:
             tail = "" if found else " no-failing-input-found"
             print("VIOLATION property=%s replay=%s%s" % (self.prop, path, tail))
